@@ -163,3 +163,32 @@ package parser
 //@   ensures inputOK(pi) && pi.s == old(pi.s)
 //@   ensures implies(err == nil, located(pi.s, expression) && expression.Range.To.Index == pi.charIndex && expression.Range.From.Index == old(pi.charIndex) + old(len(prefix)) + 1)
 //@   ensures implies(err != nil, pi.charIndex == old(pi.charIndex))
+
+// ---------------------------------------------------------------------------
+// C06: top-level Go code between templates. Library interface contract (assumed, github.com/a-h/parse): a parser
+// never changes the input text, keeps the index inside it and never moves it backwards.
+//@ package github.com/a-h/parse
+//@ func (Parser) Parse
+//@   interface
+//@   requires in != nil && 0 <= in.charIndex && in.charIndex <= len(in.s)
+//@   modifies in.charIndex, failedDuring
+//@   ensures in.s == old(in.s) && old(in.charIndex) <= in.charIndex && in.charIndex <= len(in.s)
+//@ package github.com/a-h/templ/parser/v2
+
+// The Go code collected between templates is the input text from where the collection started up to the current
+// index, byte for byte (the line parsers return exactly what they consume - assumed for the two library parsers
+// used here); the recorded expression is that text with surrounding white space trimmed.
+//@ func (TemplateFileParser) Parse [C06]
+//@   requires inputOK(pi)
+//@   modifies *
+//@   loop 0 invariant inputOK(pi) && pi.s == old(pi.s)
+//@   loop 3 invariant inputOK(pi) && pi.s == old(pi.s) && code != nil && 0 <= from.Index && from.Index <= pi.charIndex && code.String() == sub(pi.s, from.Index, pi.charIndex)
+//@   let L0 = pi.charIndex @ before stringUntilNewLineOrEOF.Parse#1
+//@   assume after stringUntilNewLineOrEOF.Parse#1: result0 == sub(pi.s, ghost(L0), pi.charIndex)
+//@   let N0 = pi.charIndex @ before parse.NewLine.Parse#2
+//@   assume after parse.NewLine.Parse#2: result0 == sub(pi.s, ghost(N0), pi.charIndex)
+// the end-of-input parser consumes nothing
+//@   let E0 = pi.charIndex @ before parse.EOF[string]().Parse#1
+//@   assume after parse.EOF[string]().Parse#1: pi.charIndex == ghost(E0)
+//@   assert before NewExpression#2: arg0 == trimmed(sub(pi.s, arg1.Index, pi.charIndex)) && arg2.Index == pi.charIndex
+//@   assert before NewExpression#3: arg0 == trimmed(sub(pi.s, arg1.Index, pi.charIndex)) && arg2.Index == pi.charIndex
